@@ -227,6 +227,27 @@ class Program:
         if rng.random() < 0.9:
             opts["integer_max_volume"] = True
         self.world = gen_world(rng, opts)
+        self.first_op = None
+        if len(self.world["labware"]) >= 2 and rng.random() < 0.02:
+            # replicate plates: two labware objects with the same name, geometry and limits, one filled, one empty; the
+            # first step splits every well 1:1, after which the two hold the same volumes everywhere (equal in every
+            # respect but identity)
+            import copy
+            from ..sim.geom import enc
+            rows, cols = rng.randint(1, 4), rng.randint(1, 4)
+            q = float(rng.choice([25, 50, 12.5, 100]))
+            a = {"kind": "plate", "name": "DWP", "rows": rows, "cols": cols, "min": enc(0.0), "max": enc(500.0),
+                 "initial": enc([[2 * q] * cols for _ in range(rows)]), "names": None, "grid": 10, "site": 1}
+            b = copy.deepcopy(a)
+            b["initial"] = enc([[0.0] * cols for _ in range(rows)])
+            b["grid"], b["site"] = 11, 2
+            self.world["labware"][0], self.world["labware"][1] = a, b
+            for spec in self.world["labware"]:
+                spec.pop("replica_of", None)  # (a replica of one of the two replaced labware would share the wrong array)
+            from ..sim.geom import well_id
+            wells = [[well_id(r, c) for c in range(cols)] for r in range(rows)]
+            self.first_op = {"op": "transfer", "src": 0, "sw": wells, "dst": 1, "dw": wells, "volumes": enc(q),
+                             "label": "split 1:1", "intent": "ok"}
         self.gen = Gen(rng, self.world, {"p_comp": 0.4, "dist_dups": True})
         r = rng.random()
         self.n = rng.randint(1, 8) if r < 0.65 else rng.randint(8, 25) if r < 0.92 else rng.randint(25, 60)
@@ -241,6 +262,8 @@ class Program:
         if i >= self.n:
             return None
         rng, g = self.rng, self.gen
+        if i == 0 and self.first_op is not None:
+            return self.first_op
         fault = rng.random() < self.p_fault
         r = rng.random()
         if r < 0.04:
